@@ -767,7 +767,9 @@ class Interp:
         return out
 
     def violate_at(self, rule, body, line, inst, detail, heap):
-        self.violations.append((rule, body.key, inst, '%s:%s (%s)' % (body.file, line, body.key), detail + ' || trace: ' + ' | '.join(self.trace())))
+        # keyed by the public operation during which it happens (stable under inlining / extraction of helpers)
+        op = self.call_ctx[0][0] if self.call_ctx else body
+        self.violations.append((rule, op.key, inst, '%s:%s (%s)' % (body.file, line, body.key), detail + ' || trace: ' + ' | '.join(self.trace())))
 
     def violate(self, rule, body, term, inst, detail, heap):
         self.violations.append((rule, body.key, inst, '%s:%s (%s)' % (body.file, term.line, body.key), detail + ' || trace: ' + ' | '.join(self.trace())))
